@@ -5,5 +5,5 @@ THEOREMS = []
 TRUSTED = []
 ASSUMPTIONS = []
 LEVEL_TEXT = 'Lean theorems about the word-level inverse/division primitives (all 64-bit words), the single-limb division kernels (all lengths) and the rounding/sign/adjust logic of every mpz division wrapper (all signs, d=0 cases); models run against the rebuilt library with dividends constructed backwards from (q,d,r) to hit the rare correction branches.'
-LEVEL_NOTE = 'Schoolbook mpn_sb_div_qr, mpn_sb_divappr_q (quotient floor or floor+1) and mpn_sb_div_q (exact, with its fix-up code) are proved limb for limb (parts c02_sb, c02_sbq); mpn_dc_div_qr_n/mpn_dc_div_qr/mpn_dc_div_q at value level over the schoolbook contract (c02_dc); the glue of mpn_tdiv_qr/mpn_divrem (c02_tdivqr) and mpn_tdiv_q (c02_tdivq) limb for limb over the callee contracts. Differential only: mpn_dc_divappr_q internals (mulmid), Newton (inv_*) division, assembly divrem_2/divrem_euclidean kernels.'
+LEVEL_NOTE = "The positive contract of mpn_dc_divappr_q (floor or floor+1; refuted for the code as pinned, repaired in 631f91d) is measured, not proved; mpn_inv_* (Newton) division and assembly divrem_2 are assumed contracts; assembly kernels by correspondence."
 PLACEHOLDER = True
